@@ -483,7 +483,7 @@ def r12_6(ctx):
         if 'candidates' in i['key']:
             out.append(inst('R12.6', 'probe order|' + i['key'].split('|')[1], i['ok'], i['detail']))
     # ... and that pair is the placement function's own (unsorted) result: its producing call takes the key itself
-    for p, cls in (('sharded::Cache::get', 'open_ro'), ('sharded::Cache::touch', 'meta_atime')):
+    for p, cls in (('sharded::Cache::get', {'open_ro', 'open_rw'}), ('sharded::Cache::touch', {'meta_atime', 'meta_times', 'meta_times_h'})):
         q = ctx.explore(ctx.key_of(p))
         body = ctx.B[ctx.key_of(p)]
         key_params = {i for i in range(1, body['arg_count'] + 1) if ctx.T[body['locals'][i]['ty']].get('adt') == 'Key'}
